@@ -46,7 +46,7 @@ func runC16(c *Ctx, r *Report) {
 		return SV{K: "str", Known: true, S: s, Len: &l, Desc: fmt.Sprintf("%q", s)}
 	}
 	for _, cmds := range lists {
-		for _, ncred := range []int64{0, 2} {
+		for _, ncred := range []int64{0, 1, 2} {
 			name := fmt.Sprintf("commands=%q,credentials=%d", cmds, ncred)
 			cl := symInt(ncred)
 			sc := &Scenario{Name: name, MaxVisit: 6, MaxPaths: 20000,
